@@ -38,6 +38,10 @@ M = {
     "a C-side caller releasing a CVec with len != capacity through drop_fn(data, len, capacity)", ["C16", "C11"], "C16 CVec view release / C11 drop-fn trampoline arguments"),
  "C20-optional-vtables-opaque-in-layout": ("C20", "cglue-gen/src/trait_groups.rs: under layout_checks the Option<&Vtbl> fields of optional traits get #[sabi(unsafe_opaque_field)], so edits inside an optional trait of a group compare as Valid",
     "a group with an optional trait and an edit inside that optional trait", ["C20"], "C20:difference-accepted on pairs where the edited trait is an optional member (edit kind added after this seed was first missed)"),
+ "C17-mut-arc-drop-helper-skips-context": ("C17", "cglue-bindgen/src/types.rs create_wrapper: in the generated C `*_drop` helper the context release is only emitted when the container also has a drop helper (Box)",
+    "an object/group with a non-owning container (Mut/Ref) and an Arc context, released through the generated C drop helper", ["C17"], "C17:drop-helper-accounting (mock arc drop counter in the executed C driver)"),
+ "C18-consuming-wrapper-undeclared-ctx": ("C18", "cglue-bindgen/src/types.rs create_wrapper: the `ctx_x_drop(&___ctx)` line of consuming C wrappers is gated on the container having a drop helper instead of the context, so Box + NoContext objects with a by-value method get a reference to an undeclared `___ctx`",
+    "a trait object with a consuming method, CBox container and NoContext", ["C18"], "C18:does-not-compile (gcc/clang -std=c99 on the post-processed header)"),
 }
 for name, (prop, what, needs, caught_by, how) in M.items():
     d = os.path.join(ROOT, name)
